@@ -86,13 +86,13 @@ LIMITS = [None, None, b"", b"0", b"1", b"5", b"69", b"70", b"71", b"72", b"73", 
 def generate(rng, quick):
     items = []
     # 1. base64 transcription
-    for b in exhaustive_b64(4 if quick else 6):
+    for b in exhaustive_b64(4 if quick else 5):
         items.append(({"rx": "hc_b64", "body": b.hex()}, {"kind": "b64", "body": b}))
-    for _ in range(600 if quick else 12000):
+    for _ in range(600 if quick else 8000):
         b = gen_body(rng)
         items.append(({"rx": "hc_b64", "body": b.hex()}, {"kind": "b64", "body": b}))
     # 2. client response path
-    n = 350 if quick else 6000
+    n = 350 if quick else 4000
     for i in range(n):
         status = rng.choice(STATUSES)
         r = rng.random()
@@ -111,7 +111,7 @@ def generate(rng, quick):
             items.append((q2, {"kind": "resp", "status": status, "body": body, "trunc": trunc, "oneway": 0,
                                "pair_of_previous": True}))
     # 3. server handler size header
-    for i in range(250 if quick else 4000):
+    for i in range(250 if quick else 3000):
         limit = rng.choice(LIMITS)
         if rng.random() < 0.08:
             limit = rand_bytes(rng, rng.randrange(1, 5))
